@@ -179,6 +179,26 @@ func genVal(r *lib.Rng, f *FDesc, k Kind, t reflect.Type, over bool) Val {
 		switch t {
 		case reflect.TypeOf(Tag{}):
 			return vStr("tag:" + lib.Pick(r, hostile))
+		case reflect.TypeOf(Price(0)):
+			return vInt(100 * int64(r.Range(-50000, 50000)))
+		case reflect.TypeOf(Code("")):
+			return vStr("enc:" + lib.Pick(r, hostile))
+		case reflect.TypeOf(CSV{}):
+			switch r.Intn(4) {
+			case 0:
+				return vNil
+			case 1:
+				return vSome(vStr("[]"))
+			}
+			return vSome(vStr("[" + lib.Pick(r, []string{"a", "b c", "é"}) + "," + lib.Pick(r, []string{"x", "it's", "q\"q"}) + "]"))
+		case reflect.TypeOf(KV{}):
+			switch r.Intn(4) {
+			case 0:
+				return vNil
+			case 1:
+				return vSome(vStr("{}"))
+			}
+			return vSome(vStr(canonJSON(map[string]string{"k": lib.Pick(r, hostile), lib.Pick(r, []string{"a", "b'"}): "v"})))
 		case reflect.TypeOf(Level(0)):
 			return vInt(genInt(r, 8, false))
 		default:
@@ -323,7 +343,7 @@ type GenOpt struct {
 	AllowKnown bool
 }
 
-var mainTypes = []string{"Ints", "Scalars", "Nulls", "Sers", "Embs", "Defs", "Comp", "Keyed", "StrKey", "UnixU", "Twice", "Loc", "Loc", "Uid", "PTimes", "PTimes", "Modeled", "Modeled", "Defs2", "Defs2", "SDef", "SDef", "CDef", "PEmb", "PEmb", "PEmb", "NumSer", "NumSer"}
+var mainTypes = []string{"Ints", "Scalars", "Nulls", "Sers", "Embs", "Defs", "Comp", "Keyed", "StrKey", "UnixU", "Twice", "Loc", "Loc", "Uid", "PTimes", "PTimes", "Modeled", "Modeled", "Defs2", "Defs2", "SDef", "SDef", "CDef", "PEmb", "PEmb", "PEmb", "NumSer", "NumSer", "Customs", "Customs", "Customs"}
 var mapTypes = []string{"Ints", "Scalars", "Keyed", "Comp", "Embs", "Twice", "Loc", "Uid"}
 
 func genInput(r *lib.Rng, id int, g GenOpt) Input {
